@@ -23,7 +23,7 @@ impl<T: Elem> Iterator for GenIter<T> {
         self.ids.pop_front().map(T::make)
     }
     fn size_hint(&self) -> (usize, Option<usize>) {
-        if self.exact { (self.ids.len(), Some(self.ids.len())) } else { (self.lo.min(self.ids.len()), None) }
+        if self.exact { (self.ids.len(), Some(self.ids.len())) } else { (self.lo, None) }
     }
 }
 
